@@ -14,7 +14,6 @@
 """Symbolic list."""
 
 import dataclasses
-import math
 import numbers
 import typing
 from typing import Any, Callable, Dict, Iterable, Iterator, Optional, Tuple, Union
@@ -495,20 +494,9 @@ class List(list, base.Symbolic, pg_typing.CustomTyping):
       self._onchange_callback(field_updates)
 
   def _parse_slice(self, index: slice) -> Tuple[int, int, int]:
-    start = index.start if index.start is not None else 0
-    start = max(-len(self), start)
-    start = min(len(self), start)
-    if start < 0:
-      start += len(self)
-
-    stop = index.stop if index.stop is not None else len(self)
-    stop = max(-len(self), stop)
-    stop = min(len(self), stop)
-    if stop < 0:
-      stop += len(self)
-
-    step = index.step if index.step is not None else 1
-    return start, stop, step
+    # NOTE: `slice.indices` handles negative and out-of-range bounds as well
+    # as negative steps with the semantics of the standard list.
+    return index.indices(len(self))
 
   def _init_kwargs(self) -> typing.Dict[str, Any]:
     kwargs = super()._init_kwargs()
@@ -557,29 +545,51 @@ class List(list, base.Symbolic, pg_typing.CustomTyping):
                               'accessor_writable is set to False. '
                               'Use \'rebind\' method instead.'))
     if isinstance(index, slice):
-      start, stop, step = self._parse_slice(index)
-      replacements = [self._formalized_value(i, v) for i, v in enumerate(value)]
-      if step < 0:
-        replacements.reverse()
-        step = -step
-      slice_size = math.ceil((stop - start) * 1.0 / step)
-      if step == 1:
-        if slice_size < len(replacements):
-          for i in range(slice_size, len(replacements)):
-            replacements[i] = Insertion(replacements[i])
-        else:
-          replacements.extend(
-              [pg_typing.MISSING_VALUE
-               for _ in range(slice_size - len(replacements))])
-      elif slice_size != len(replacements):
-        raise ValueError(
-            f'attempt to assign sequence of size {len(replacements)} to '
-            f'extended slice of size {slice_size}')
+      # NOTE: follow the semantics of `list.__setitem__` with a slice.
+      start, stop, step = index.indices(len(self))
+      new_values = list(value)
+      element = self._value_spec.element if self._value_spec else None
       updates = []
-      for i, r in enumerate(replacements):
-        update = self._set_item_without_permission_check(start + i * step, r)
+
+      def _set(i, v):
+        update = self._set_item_without_permission_check(i, v)
         if update is not None:
           updates.append(update)
+
+      if step == 1:
+        stop = max(start, stop)
+        new_size = len(self) - (stop - start) + len(new_values)
+        if self.max_size is not None and new_size > self.max_size:
+          raise ValueError(
+              f'Cannot assign slice: the number of elements ({new_size}) '
+              f'exceeds max size ({self.max_size}).')
+        if self._value_spec and new_size < self._value_spec.min_size:
+          raise ValueError(
+              f'Cannot assign slice: the number of elements ({new_size}) '
+              f'is less than min size ({self._value_spec.min_size}).')
+        num_replaced = min(stop - start, len(new_values))
+        for i in range(num_replaced):
+          _set(start + i, new_values[i])
+        for i in range(num_replaced, len(new_values)):
+          _set(start + i, Insertion(new_values[i]))
+        # Remove the rest of the old items from the back.
+        for i in reversed(range(start + len(new_values), stop)):
+          old_value = list.__getitem__(self, i)
+          list.__delitem__(self, i)
+          if isinstance(old_value, base.TopologyAware):
+            old_value.sym_setparent(None)
+          updates.append(base.FieldUpdate(
+              self.sym_path + i, self, element,
+              old_value, pg_typing.MISSING_VALUE))
+        self._sync_children_paths(start)
+      else:
+        indices = range(start, stop, step)
+        if len(indices) != len(new_values):
+          raise ValueError(
+              f'attempt to assign sequence of size {len(new_values)} to '
+              f'extended slice of size {len(indices)}')
+        for i, v in zip(indices, new_values):
+          _set(i, v)
       if flags.is_change_notification_enabled() and updates:
         self._notify_field_updates(updates)
     elif isinstance(index, numbers.Integral):
